@@ -637,7 +637,12 @@ def run_gt_time(cfg):
         if r == 'sat':
             m = s2.model()
             av = m.eval(z3.Real('alpha'), True)
-            viol.append(dict(kind='gt_time', order=order, mc=mc, what='temporal support ends before the sample at which the envelope was found below the threshold',
+            names = ['temporal support ends before the sample at which the envelope was found below the threshold',
+                     'the sample at which the search stopped lies before the peak of the envelope',
+                     'temporal support starts after the onset of the filter (causal: sample 0; max_centered: floor(offset))',
+                     'temporal support starts more than one sample before the onset of the filter']
+            which = [n_ for n_, cl_ in zip(names, res[1]) if z3.is_true(m.eval(cl_, True))]
+            viol.append(dict(kind='gt_time', order=order, mc=mc, what=(which or names)[0],
                              alpha=float(av.as_fraction()) if z3.is_rational_value(av) else 0.1, **{'class': 'gt_time/short/mc=%s' % mc}))
         elif r == 'unsat':
             dis += 1
@@ -783,6 +788,10 @@ def replay(w):
                 b = filters.ComplexGammatoneFilterBank(sc, num_filts=8, low_hz=60.0, sampling_rate=8000, order=w['order'], max_centered=w['mc'])
                 for i in range(b.num_filts):
                     lo, hi = b.supports[i]
+                    if not w['mc'] and lo != 0:
+                        return {'reproduced': True, 'detail': 'causal gammatone (order %d, %s, filter %d of 8): temporal support (%d, %d) does not start at sample 0' % (w['order'], sc, i, lo, hi)}
+                    if w['mc'] and not (lo <= 0 <= hi):
+                        return {'reproduced': True, 'detail': 'max_centered gammatone (order %d, %s, filter %d of 8): temporal support (%d, %d) does not straddle sample 0' % (w['order'], sc, i, lo, hi)}
                     width = 4 * (hi - lo) + 64
                     h = np.abs(b.get_impulse_response(i, width))
                     idx = np.arange(width)
